@@ -37,11 +37,21 @@ def workdir(name):
     return d
 
 
+def repo_override():
+    """Development aid: VERIF_REPO=<dir> builds against a copy of the repository (cargo `paths` override) so that a
+    long background run is not disturbed by patches applied to /repo meanwhile.  Registered commands never set it:
+    they build from /repo's working tree."""
+    r = os.environ.get("VERIF_REPO")
+    if not r:
+        return []
+    return ["--config", 'paths=["%s/tarpc","%s/plugins"]' % (r, r)]
+
+
 def build_harness():
     """Rebuilds the harness (and tarpc with --cfg tarpc_verif) from /repo's working tree."""
     t0 = time.time()
     env = dict(os.environ, CARGO_NET_OFFLINE="true")
-    p = subprocess.run(["cargo", "build", "--offline"], cwd=HARNESS, env=env,
+    p = subprocess.run(["cargo", "build", "--offline"] + repo_override(), cwd=HARNESS, env=env,
                        stdout=subprocess.PIPE, stderr=subprocess.STDOUT, text=True)
     if p.returncode != 0:
         log(p.stdout[-4000:])
